@@ -360,9 +360,23 @@ func VH_ClientRetry() {
 	c := &AuditClient{Netlink: s}
 	j := vParam("j", 9)
 	pattern := vParam("pattern", 0) // 0 all EINTR, 1 all EAGAIN, 2 alternating
-	for i := 0; i < j; i++ {
-		s.queue = append(s.queue, vEvent{kind: vEvTransient, eintr: pattern == 0 || (pattern == 2 && i%2 == 0)})
+	fails := func(n int) {
+		for i := 0; i < n; i++ {
+			s.queue = append(s.queue, vEvent{kind: vEvTransient, eintr: pattern == 0 || (pattern == 2 && i%2 == 0)})
+		}
 	}
+	records := func(n int) {
+		for i := 0; i < n; i++ {
+			s.queue = append(s.queue, vEvent{kind: vEvUnsolicited, seq: 0, typ: vU16("utyp"), payload: vBytes("upay", 2)})
+		}
+	}
+	// unsolicited records and runs of transient failures in front of the reply: every run of
+	// failures is at most 9 long unless j itself is 10
+	records(vParam("r1", 0))
+	fails(j)
+	records(vParam("r2", 0))
+	fails(vParam("j2", 0))
+	records(vParam("r3", 0))
 	err := c.SetEnabled(true, WaitForReply)
 	rq := s.reqs[0]
 	if j <= 9 {
